@@ -249,4 +249,13 @@ example : (run P (Sys.init [[.leave], [.shutdown], [.join]]) [0, 0, 1, 1, 1, 2, 
 example : (run P (Sys.init [[.leave], [.shutdown], [.join]]) [0, 0, 1, 1, 1, 2, 2, 0, 0]).threads.map (·.results)
     = [[(.leave, .ok)], [(.shutdown, .ok)], [(.join, .err)]] := by decide
 
+/-- **A lifecycle call examines (and for Leave / Shutdown changes) the state before anything that can block.**
+Regenerated from the source: `Leave`, `Shutdown` and `Join` have no statement in front of their first state
+region, so the region of a call is executed at the moment the call begins — which is what "a join is refused if a
+leave or shutdown had begun before it was called" rests on (a lock taken first, e.g. `joinLock` in `Leave`, would
+let a later `Join` pass its test while the leave is still waiting). -/
+theorem C34_state_examined_first :
+    SerfModel.Gen.Lifecycle.leavePreamble = [] ∧ SerfModel.Gen.Lifecycle.shutdownPreamble = [] ∧
+    SerfModel.Gen.Lifecycle.joinPreamble = [] := by decide
+
 end SerfProofs.C34
